@@ -183,7 +183,12 @@ def gen_series(r, tier='quick', **force):
         # only some of the files say when they were acquired
         for f in r.sample(files, r.randint(1, len(files) - 1)):
             f['meta'].pop('AcquisitionTime', None)
-    return {'op': 'stack', 'S': S, 'T': T, 'V': V, 'orient': oname, 'iop': list(map(float, rowc)) + list(map(float, colc)),
+    rescale = None
+    if force.get('rescale') and r.random() < 0.35:
+        # RescaleSlope / RescaleIntercept: the output holds the rescaled values; integral parameters that leave the range
+        # of the stored pixel type (negative results of unsigned data, doubled values past 2**15 / 2**16) and fractional ones
+        rescale = r.choice([(1, -1024), (2, 0), (2, -7), (1, 100000), (0.5, 0), (0.25, 10.5), (3, -2048), (1, -5)])
+    return {'rescale': rescale, 'op': 'stack', 'S': S, 'T': T, 'V': V, 'orient': oname, 'iop': list(map(float, rowc)) + list(map(float, colc)),
             'rows': rows, 'cols': cols, 'spacing': spacing, 'gap': gap, 'origin': origin,
             'ordering': ordering, 'files': files, 'patterns': patterns, 'acq': acq_pat, 'tr': tr_pat, 'pe': pe, 'shear': shear, 'hdr': hdr,
             'bits_stored': bits, 'signed': signed, 'meta_mode': meta_mode, 'bits_mix': bits_mix}
@@ -199,6 +204,8 @@ def dataset_of(series, f, **over):
               spacing=series['spacing'], pixels=pixels_of(series, f), meta=f['meta'],
               bits_stored=f.get('bits', series.get('bits_stored', 16)), signed=series.get('signed', False),
               uid='1.2.3.%d' % f['id'])
+    if series.get('rescale'):
+        kw['slope'], kw['intercept'] = series['rescale']
     kw.update(over)
     return synth.make_ds(**kw)
 
